@@ -147,10 +147,25 @@ def norm(s, stop):
     return tuple(Fraction(x) / b1 for x in s[0][:stop]) + tuple(Fraction(x) / b1 for x in s[1][:stop])
 
 
-def run_equiv(ctx, sh):
+def build_valid(ctx, schemes):
+    """library objects for schemes that ARE valid by the statement; a rejection is a violation of the validation
+    clause (reported once per shard), the scheme is then skipped."""
     from ..lib import mk_scheme
-    schemes = spaces.schemes_over(sh['values'])
-    objs = [mk_scheme(s) for s in schemes]
+    keep, objs = [], []
+    for s in schemes:
+        try:
+            o = mk_scheme(s)
+        except Exception as e:
+            ctx.violation('valid-scheme-rejected', {'cfg': {}, 'kind': 'validate', 'B': list(s[0]), 'T': list(s[1]),
+                                                    'float': True}, type(e).__name__, 'accepted')
+            continue
+        keep.append(s)
+        objs.append(o)
+    return keep, objs
+
+
+def run_equiv(ctx, sh):
+    schemes, objs = build_valid(ctx, spaces.schemes_over(sh['values']))
     n6 = [norm(s, 6) for s in schemes]
     n3 = [norm(s, 3) for s in schemes]
     for i in range(sh['shard'], len(schemes), sh['nshards']):
@@ -196,13 +211,12 @@ def run_equiv(ctx, sh):
 
 
 def run_scale(ctx, sh):
-    from ..lib import mk_scheme
     ss = _lib['ss']
-    schemes = spaces.schemes_over([0, 1, 2])
+    schemes, objs = build_valid(ctx, spaces.schemes_over([0, 1, 2]))
     factors = [0.5, 1, 2, 3, 1.0, 2.0, 0.25, 3.0]
     for i in range(sh['shard'], len(schemes), sh['nshards']):
         s = schemes[i]
-        a = mk_scheme(s)
+        a = objs[i]
         snap = copy.deepcopy(a.__dict__)
         for k in factors:
             for side in ('s*k', 'k*s'):
@@ -245,13 +259,22 @@ def run_homog(ctx, sh):
         universe = spaces.universe_of(ds)
         cands = [(c, mk_ranking(c, lab)) for c in spaces.weak_orders(universe)]
         for name, s in spaces.SCHQ:
-            a = mk_scheme(s)
+            try:
+                a = mk_scheme(s)
+            except Exception as e:
+                ctx.violation('valid-scheme-rejected', {'cfg': {}, 'kind': 'validate', 'B': list(s[0]), 'T': list(s[1]),
+                                                        'float': True}, type(e).__name__, 'accepted')
+                continue
             fa = K(a)
             base = [float(fa.get_kemeny_score(cr, dataset)) for _, cr in cands]
             ctx.evals += len(cands)
             for k in sh['factors']:
                 ctx.cases += 1
-                fb = K(a * k)
+                try:
+                    fb = K(a * k)
+                except Exception as e:
+                    ctx.violation('scale-raises', {'cfg': {}, 'kind': 'scale', 'a': s, 'k': k, 'side': 's*k'}, None, None, exc=e)
+                    continue
                 for (c, cr), b0 in zip(cands, base):
                     ctx.evals += 1
                     got = float(fb.get_kemeny_score(cr, dataset))
